@@ -72,7 +72,7 @@ type invIn struct {
 }
 
 type input struct {
-	Mode      string  `json:"mode"`               // run | noendpoint | telebind | regfail | subfail
+	Mode      string  `json:"mode"`               // run | noendpoint | telebind | regfail | subfail | dyn
 	Invs      []invIn `json:"invs"`               // the scripted invocations
 	Data0     int     `json:"data0,omitempty"`    // datapoints the platform sends before the first GET /next (init phase)
 	NopLat    int     `json:"noplat,omitempty"`   // latency of the forwarder's start-up POST, ms
@@ -83,7 +83,8 @@ type input struct {
 	FlushMs   int     `json:"flushms,omitempty"` // http-transport.flush-interval in ms (0 = default 1 s); README: not respected in manual-flush mode
 	Cold      int     `json:"cold,omitempty"`  // cold-start records (platform.initStart, platform.initRuntimeDone, platform.initReport): 1 = one batch during the init phase (before the first GET /next), 2 = one batch at the start of invocation 1, 3 = inside the runtimeDone batch of invocation 1, 4 = three batches during the init phase
 	TSeed     int     `json:"tseed,omitempty"` // seed for the types of the "other" telemetry records
-	DynHdr    bool    `json:"dynhdr,omitempty"` // opt-in demonstration (never generated): http-transport.dynamic-headers = [region]
+	Hdr       []string `json:"hdr,omitempty"`  // mode dyn: http-transport.dynamic-headers
+	Tags      []string `json:"tags,omitempty"` // mode dyn: one init-phase datapoint per entry, with these tags (sorted, comma separated; "" = none)
 	Stream    string  `json:"stream"`
 }
 
@@ -303,9 +304,6 @@ func runScenario(in input) (res result) {
 		if s.lat > 0 {
 			time.Sleep(time.Duration(s.lat) * time.Millisecond)
 		}
-		if in.DynHdr && len(ids) > 0 && ids[0]%2 == 1 {
-			time.Sleep(60 * time.Millisecond) // the split carrying the odd datapoints is slower
-		}
 		ok := att > s.fails
 		lg.add(ev{K: "upresp", D: ids, Ok: ok})
 		switch {
@@ -332,6 +330,7 @@ func runScenario(in input) (res result) {
 	}
 	release := make(chan nextEv)
 	stopAPI := make(chan struct{})
+	var subAt atomic.Int64
 	mux := http.NewServeMux()
 	mux.HandleFunc("/2020-01-01/extension/register", func(w http.ResponseWriter, r *http.Request) {
 		io.Copy(io.Discard, r.Body)
@@ -348,6 +347,7 @@ func runScenario(in input) (res result) {
 	mux.HandleFunc("/2022-07-01/telemetry", func(w http.ResponseWriter, r *http.Request) {
 		io.Copy(io.Discard, r.Body)
 		ok := in.Mode != "subfail"
+		subAt.Store(time.Now().UnixNano())
 		lg.add(ev{K: "subscribe", Ok: ok})
 		if !ok {
 			w.WriteHeader(http.StatusInternalServerError)
@@ -430,12 +430,12 @@ func runScenario(in input) (res result) {
 	if in.FlushMs > 0 {
 		ht["flush-interval"] = time.Duration(in.FlushMs) * time.Millisecond
 	}
-	if in.DynHdr {
-		ht["dynamic-headers"] = []string{"region"}
+	if len(in.Hdr) > 0 {
+		ht["dynamic-headers"] = in.Hdr
 	}
 	v.Set("http-transport", ht)
-	if in.DynHdr {
-		v.Set("dynamic-header", []string{}) // what cmd/lambda-extension/main.go NewServer does to "disable" them
+	if len(in.Hdr) > 0 {
+		v.Set("dynamic-header", []string{}) // what cmd/lambda-extension/main.go NewServer does to "disable" them (nothing reads this key)
 	}
 	quiet := logrus.New()
 	quiet.SetOutput(io.Discard)
@@ -483,7 +483,7 @@ func runScenario(in input) (res result) {
 		res.log = lg.freeze()
 	}
 
-	if in.Mode != "run" {
+	if in.Mode != "run" && in.Mode != "dyn" {
 		// start-up failure scripts: the manager must return by itself
 		finish(true)
 		cancel()
@@ -509,8 +509,8 @@ func runScenario(in input) (res result) {
 		}
 	}
 	line := func(d int) string {
-		if in.DynHdr {
-			return dpName(d) + ":1|c|#region:r" + strconv.Itoa(d%2)
+		if in.Mode == "dyn" && d < len(in.Tags) && in.Tags[d] != "" {
+			return dpName(d) + ":1|c|#" + in.Tags[d]
 		}
 		return dpName(d) + ":1|c"
 	}
@@ -648,6 +648,45 @@ func runScenario(in input) (res result) {
 		}
 	}
 
+	if in.Mode == "dyn" {
+		// dynamic headers configured (README: unsupported in Lambda mode).  Not judged against the
+		// property: the observed POSTs of the initial flush and whether GET /next ever happens are
+		// compared in Coq with what the composed model predicts.
+		quit := func() {
+			cancel()
+			select {
+			case <-runDone:
+			case <-time.After(300 * time.Millisecond): // a starved heartbeat never returns: abandon it
+			}
+			res.log = lg.freeze()
+		}
+		if !waitKind("subscribe") {
+			res.infra = "no telemetry subscription"
+			quit()
+			return
+		}
+		var ids []int
+		for i := range in.Tags {
+			ids = append(ids, i)
+		}
+		if len(ids) > 0 {
+			send(ids, false)
+			if !waitAck() || time.Since(time.Unix(0, subAt.Load())) > 70*time.Millisecond {
+				res.infra = "init-phase datapoints were not accepted inside the start window"
+				quit()
+				return
+			}
+		}
+		if lg.waitNexts(1, 3*time.Second) {
+			time.Sleep(250 * time.Millisecond) // the other parts' POSTs
+			select {
+			case release <- nextEv{shutdown: true}:
+			case <-time.After(time.Second):
+			}
+		}
+		quit()
+		return
+	}
 	if in.Data0 > 0 {
 		var ids []int
 		for j := 0; j < in.Data0; j++ {
@@ -906,6 +945,34 @@ func runOne(in input) hlib.Case {
 	c.Coq = hlib.App("mkCase", hlib.Bool(srverr), hlib.List(obs))
 	c.Monitors = mons
 	c.Obs = r.log
+	if in.Mode == "dyn" {
+		// items: (id, tags key) - the key is what gostatsd files the series under (sorted tags; the
+		// source of a unix-socket datagram is empty)
+		var items, posts []string
+		for i, t := range in.Tags {
+			var tags gostatsd.Tags
+			if t != "" {
+				tags = strings.Split(t, ",")
+			}
+			items = append(items, hlib.Pair(hlib.Nat(i), hlib.Bytes(gostatsd.FormatTagsKey(gostatsd.UnknownSource, tags))))
+		}
+		nexts := false
+		for _, e := range r.log {
+			if e.K == "upreq" && len(e.D) > 0 {
+				el := make([]string, len(e.D))
+				for i, d := range e.D {
+					el[i] = hlib.Nat(d)
+				}
+				posts = append(posts, hlib.List(el))
+			}
+			if e.K == "nextcall" {
+				nexts = true
+			}
+		}
+		c.Coq = hlib.App("mkDynCase", hlib.StrList(in.Hdr), hlib.List(items), hlib.List(posts), hlib.Bool(nexts))
+		c.Monitors = nil
+		c.Nontrivial = len(in.Tags) >= 2
+	}
 	posts, retries := 0, 0
 	for _, e := range r.log {
 		if e.K == "upresp" && len(e.D) > 0 {
@@ -926,6 +993,15 @@ func runOne(in input) hlib.Case {
 func genCase(r *hlib.Rand, k int, tier string) input {
 	in := input{Mode: "run", Slots: hlib.Pick(r, []int{1, 1, 2, 4}), Compress: r.Bool(), Stream: "invocations"}
 	switch {
+	case k%25 == 13:
+		in.Stream = "dynhdr"
+		in.Mode = "dyn"
+		in.Hdr = hlib.Pick(r, [][]string{{"region"}, {"region"}, {"region", "env"}, {"reg"}})
+		pool := []string{"", "region:a", "region:b", "env:x,region:a", "env:y", "env:x,region:b", "other:1", "region:a,zone:1"}
+		for i, n := 0, r.Range(0, 5); i < n; i++ {
+			in.Tags = append(in.Tags, hlib.Pick(r, pool))
+		}
+		return in
 	case k%10 == 9:
 		in.Stream = "startup"
 		in.Mode = hlib.Pick(r, []string{"noendpoint", "telebind", "regfail", "subfail"})
